@@ -128,8 +128,10 @@ def blank_hint_statement(text, off):
     # find the token at/after off
     idx = None
     for i, t in enumerate(toks):
-        if t.start <= off < t.end or t.start >= off:
+        if t.start <= off < t.end:
             idx = i; break
+        if t.start > off:
+            return None      # nothing at this offset (already blanked)
     if idx is None: return None
     # walk left to statement start (after ';', '{', '}')
     i = idx
@@ -145,13 +147,18 @@ def blank_hint_statement(text, off):
                 break
         i -= 1
     start = toks[i].start
-    # walk right to the terminating ';' at depth 0 (skipping balanced groups), or end of `by {..}` block
+    # walk right to the end of the statement: `assert(..) by {..}` / `assert forall .. by {..}` end with their
+    # block; everything else (let, lemma calls, assignments, `if` used as an expression) ends at the ';' at depth 0
     j = i
+    first = toks[i].text
+    saw_by = False
     while j < len(toks):
         t = toks[j]
+        if t.kind == 'id' and t.text == 'by' and first == 'assert': saw_by = True
         if t.kind == 'punct' and t.text in ('(', '[', '{'):
             j = match_close(toks, j)
-            if t.text == '{' and (j + 1 >= len(toks) or toks[j + 1].text != ';'):
+            if t.text == '{' and saw_by:
+                if j + 1 < len(toks) and toks[j + 1].text == ';': j += 1
                 break
         elif t.text == ';':
             break
@@ -197,3 +204,39 @@ def fn_breakdown(summary):
     except Exception:
         pass
     return res
+
+def blank_clause(text, off, seg_start, seg_end):
+    """blank the comma-separated contract clause (inside the injected spec text [seg_start, seg_end)) that
+    contains byte offset `off`, keeping all offsets.  Returns new text or None."""
+    if len(text.encode()) != len(text): return None
+    seg = text[seg_start:seg_end]
+    toks = [t for t in lex(seg) if t.kind != 'comment']
+    # clause boundaries: keywords and top-level commas
+    KW = ('invariant', 'invariant_except_break', 'ensures', 'requires', 'decreases')
+    bounds = []   # (start_tok_index) of each clause
+    depth = 0
+    start = None
+    clauses = []
+    for i, t in enumerate(toks):
+        if t.kind == 'id' and t.text in KW and depth == 0:
+            if start is not None: clauses.append((start, i))
+            start = i + 1; continue
+        if t.kind == 'punct' and t.text in ('(', '[', '{'): depth += 1
+        elif t.kind == 'punct' and t.text in (')', ']', '}'): depth -= 1
+        elif t.text == ',' and depth == 0:
+            if start is not None: clauses.append((start, i + 1))
+            start = i + 1
+    if start is not None and start < len(toks): clauses.append((start, len(toks)))
+    rel = off - seg_start
+    for (a, b) in clauses:
+        if a >= b: continue
+        s0 = toks[a].start; e0 = toks[b - 1].end
+        if s0 <= rel < e0 or (s0 <= rel <= e0):
+            # do not blank a `decreases` clause (the loop needs one): report failure instead
+            k = a - 1
+            while k >= 0 and not (toks[k].kind == 'id' and toks[k].text in KW): k -= 1
+            if k >= 0 and toks[k].text == 'decreases': return None
+            piece = seg[s0:e0]
+            blank = ''.join(c if c == '\n' else ' ' for c in piece)
+            return text[:seg_start + s0] + blank + text[seg_start + e0:]
+    return None
